@@ -255,6 +255,7 @@ func runCase(c *Case) (nontrivial int, err error) {
 	defer func() { srv.Stop(inst) }()
 	if c.Rotate {
 		writePEM(clientCA, "CERTIFICATE", clientCADer[c.CA])
+		srv.Settle(inst)
 		ni, e := inst.Restart(casket.CasketfileInput{Contents: []byte(cf), Filepath: "Casketfile", ServerTypeName: "http"})
 		if e != nil {
 			return 0, fmt.Errorf("reloading the same sites after the client CA file was rewritten failed: %v\n%s", e, cf)
